@@ -379,6 +379,284 @@ def rule_D(ctx):
     ctx.extra['C10.D cases'] = n_cases
 
 
+def rule_E(ctx):
+    """C10.E the candidates, end to end on concrete geometry: mapOnNetwork interpreted (with everything it calls in its module and
+    in the geometry utilities) on edge geometries and observations that are the repository's own Track / Obs / ENUCoords objects.  Only
+    the other modules stand behind their interface (the network: EDGES, getEdgeId, the index's neighborhood and cell sizes; the
+    decoder: its constructor / setters and estimate, which records the state lists).  Two perpendicular slanted edges of several
+    vertices, observations placed at a chosen distance (below / at / above the search radius) of each, the index answering None, no
+    edge, one edge or two, two tracks in one call, the optional switches, a radius of zero.  Whatever the shape of the code, the decoder
+    must see for observation k exactly the candidates (foot of the perpendicular on the edge, the edge, abscissa of the foot from the
+    source node, from the target node) of the neighbouring edges nearer than the radius - or the unmatched sentinel."""
+    from .. import orders
+    import itertools
+    import math
+    f = _private(ctx, MAP, '__mapOnNetwork')
+    g = ctx.prog.func(MAP + '.mapOnNetwork')
+    gp = g.params
+    if len(gp) < 5:
+        raise shape_error('mapOnNetwork: parameters not understood', g.loc())
+    RADIUS = 50.0
+    hmms = []
+
+    class Hmm(orders.PyStub):
+        def __init__(self, S=None, Q=None, P=None, log=False, stationarity=False):
+            self.states = S
+            self.calls = []
+
+        def setStates(self, fn_):
+            self.states = fn_
+
+        def setTransitionModel(self, fn_):
+            pass
+
+        def setObservationModel(self, fn_):
+            pass
+
+        def setLog(self, v):
+            pass
+
+        def estimate(self, track, obs=None, log=False, mode=None, verbose=0, **kw):
+            lists = [list(self.states(track, k)) for k in range(track.call('__len__'))] if self.states is not None else None
+            self.calls.append((track, mode, lists))
+
+    def mk_hmm(*a_, **k_):
+        h = Hmm(*a_, **k_)
+        hmms.append(h)
+        return h
+
+    class _Sink(orders.PyStub):
+        def write(self, s_):
+            if not isinstance(s_, str):
+                raise TypeError('write() argument must be str')
+            return len(s_)
+
+        def close(self):
+            pass
+
+        def __enter__(self):
+            return self
+
+        def __exit__(self, *a_):
+            return False
+    from .. import npstub
+    fn = absint.funcs(ctx, MAP, dict(npstub.stubs(), **{'HMM': mk_hmm, 'open': lambda *a_, **k_: _Sink(), 'print': lambda *a_, **k_: None}))
+    OT = absint.classref(ctx, 'tracklib.core.obs_time.ObsTime', fn)
+    T = absint.classref(ctx, 'tracklib.core.track.Track', fn)
+    EN = absint.classref(ctx, 'tracklib.core.obs_coords.ENUCoords', fn)
+    fn['sqrt'], fn['hypot'] = math.sqrt, math.hypot
+    fn['progressbar'] = lambda x_, **k_: (v_ for v_ in x_)          # (progressbar.progressbar wraps its iterable in a generator)
+    U = (0.8, 0.6)          # direction of edge 0 (and normal of edge 1)
+    N = (-0.6, 0.8)         # direction of edge 1 (and normal of edge 0)
+    PARAMS = {0: (U, [-300.0, -20.0, 10.0, 10.0, 120.0, 300.0]), 1: (N, [-250.0, 20.0, 90.0, 280.0])}
+
+    def geometry(e):
+        d_, ts = PARAMS[e]
+        pts = [(t_ * d_[0], t_ * d_[1]) for t_ in ts]
+        S = [0.0]
+        for a_, b_ in zip(pts, pts[1:]):
+            S.append(S[-1] + math.hypot(b_[0] - a_[0], b_[1] - a_[1]))
+        tr = T([absint.real_obs(ctx, fn, EN(x_, y_, 12.0 + k_)) for k_, (x_, y_) in enumerate(pts)], 'u', 'edge %d' % e)
+        tr.call('createAnalyticalFeature', 'abs_curv', list(S))
+        return tr, pts, S
+
+    def oracle(e, q):
+        """nearest point of the polyline (first nearest segment, zero-length segments skipped), by the checker"""
+        _, pts, S = GEOM[e]
+        best = None
+        for i_, ((x1, y1), (x2, y2)) in enumerate(zip(pts, pts[1:])):
+            L2 = (x2 - x1) ** 2 + (y2 - y1) ** 2
+            if L2 == 0:
+                continue
+            t_ = max(0.0, min(1.0, ((q[0] - x1) * (x2 - x1) + (q[1] - y1) * (y2 - y1)) / L2))
+            px, py = x1 + t_ * (x2 - x1), y1 + t_ * (y2 - y1)
+            d_ = math.hypot(q[0] - px, q[1] - py)
+            if best is None or d_ < best[0] - 1e-9:
+                best = (d_, px, py, i_)
+        d_, px, py, i_ = best
+        return d_, px, py, S[i_] + math.hypot(px - pts[i_][0], py - pts[i_][1]), S[-1] - S[i_ + 1] + math.hypot(px - pts[i_ + 1][0], py - pts[i_ + 1][1])
+
+    class EdgeS(orders.PyStub):
+        isa = ('Edge',)
+
+        def __init__(self, e):
+            self.geom = GEOM[e][0]
+            self.id = 'edge-%d' % e
+            self.weight = 2.5 * GEOM[e][2][-1] + 40.0       # (a routing cost, not the length)
+
+    class Index(orders.PyStub):
+        csize, lsize = 4, 7
+
+        def __init__(self, answers):
+            self.answers = answers
+
+        def neighborhood(self, obj, j=None, unit=0):
+            if not (isinstance(obj, orders.Obj) and 'E' in obj.fields):
+                raise _Bad('the index is asked for the neighbourhood of the current observation position', {'asked for': repr(obj)})
+            key = (round(obj.fields['E'], 6), round(obj.fields['N'], 6))
+            if key not in self.answers:
+                raise _Bad('the index is asked for the neighbourhood of the current observation position', {'asked for': list(key)})
+            a_ = self.answers[key]
+            return list(a_) if a_ is not None else None
+
+    class Net(orders.PyStub):
+        isa = ('Network',)
+
+        def __init__(self, answers):
+            self.EDGES = {'edge-%d' % e: EdgeS(e) for e in PARAMS}
+            self.spatial_index = Index(answers)
+
+        def getEdgeId(self, e):
+            if e not in PARAMS:
+                raise KeyError(e)
+            return 'edge-%d' % e
+
+        def getEdge(self, eid):
+            return self.EDGES[eid]
+
+    class _Bad(Exception):
+        def __init__(self, desc, wit):
+            self.desc, self.wit = desc, wit
+    rels = {'below': RADIUS - 1.0, 'equal': RADIUS, 'above': RADIUS + 1.0}
+    options = [('index answers None', None, {}), ('no neighbouring edge', [], {})]
+    for r1 in rels:
+        options.append(('one edge, distance %s the radius' % r1, [0], {0: r1}))
+        options.append(('the other edge alone, distance %s the radius' % r1, [1], {1: r1}))
+    for r1, r2 in itertools.product(rels, rels):
+        options.append(('two edges, distances %s / %s the radius' % (r1, r2), [0, 1], {0: r1, 1: r2}))
+    pairs_ = [(a_, b_) for a_ in options for b_ in options[:3]] + [(b_, a_) for a_ in options[3:] for b_ in options[:1]]
+    switch_names = [p_ for p_ in gp[5:] if p_ in ('debug', 'verbose')]
+    runs_ = [(o0, o1, {}) for o0, o1 in pairs_]
+    for sw in switch_names:
+        runs_ += [(o0, o1, {sw: True}) for o0, o1 in pairs_ if o1 is options[1]]
+    # a vehicle heading due north, then one heading due east: consecutive fixes share a coordinate, not their candidates
+    north = [('fix at (30, %g), both edges in the cell' % y_, [0, 1], {}, (30.0, y_)) for y_ in (22.5, 60.0, 110.0)]
+    east = [('fix at (%g, 45), both edges in the cell' % x_, [0, 1], {}, (x_, 45.0)) for x_ in (60.0, 0.0, 160.0)]
+    runs_ += [(north[0], north[1], {'__third__': north[2]}), (east[0], east[1], {'__third__': east[2]}), (north[2], north[0], {'__third__': north[1]})]
+    zero_opts = [('one edge at distance 0 (radius 0)', [0], {0: 'zero'}), ('two edges at distances 0 and 1 (radius 0)', [0, 1], {0: 'zero', 1: 'one'})]
+    runs_ += [(zero_opts[0], zero_opts[1], {'__radius__': 0.0}), (zero_opts[1], options[1], {'__radius__': 0})]
+    n_cases = 0
+    bad = None
+    mode_want = _const_anywhere(ctx, 'MODE_OBS_AS_2D_POSITIONS')
+    try:
+        GEOM = {e: geometry(e) for e in PARAMS}
+        for o0, o1, switches in runs_:
+            if bad is not None:
+                break
+            fn['__globals__'].pop('STATES', None)
+            switches = dict(switches)
+            plan = {'T1': (o0, o1), 'T2': (o1, o0, switches.pop('__third__', o0))}
+            answers = {}
+            where = {}
+            trs = {}
+            for ti, (tname, opts) in enumerate(plan.items()):
+                obs_ = []
+                for k, op in enumerate(opts):
+                    dist_ = {e: {'zero': 0.0, 'one': 1.0}.get(rel, rels.get(rel)) for e, rel in op[2].items()}
+                    far = 140.0 + 13.0 * k + 31.0 * ti                   # (well inside the extent of each edge, far beyond the radius)
+                    d0, d1 = dist_.get(0, far), dist_.get(1, far)
+                    # distance d0 of edge 0 (along its normal N) and d1 of edge 1 (along its normal U)
+                    q = (d0 * N[0] + d1 * U[0], d0 * N[1] + d1 * U[1])
+                    if op[1] is None:
+                        q = (1000.0 + 10.0 * k + ti, -1000.0)
+                    if len(op) > 3:
+                        q = op[3]
+                    where[(tname, k)] = q
+                    answers[(round(q[0], 6), round(q[1], 6))] = list(op[1]) if op[1] is not None else None
+                    # (the fixes of the first track carry the same instant, those of the second are not in chronological order: the
+                    # candidates of observation k are those of position k all the same)
+                    obs_.append(absint.real_obs(ctx, fn, EN(q[0], q[1], 3.0), OT(2020, 1, 1, 10, 0, (0, 0, 0)[k] if ti == 0 else (30, 10, 20)[k], 0)))
+                trs[tname] = T(obs_, 'u', tname)
+            net = Net(answers)
+            del hmms[:]
+            TC = absint.classref(ctx, 'tracklib.core.track_collection.TrackCollection', fn)
+            args = {gp[0]: TC([trs['T1'], trs['T2']]), gp[1]: net, gp[2]: 7.0, gp[3]: 3.0, gp[4]: RADIUS}
+            if '__radius__' in switches:
+                args[gp[4]] = switches.pop('__radius__')
+            radius = args[gp[4]]
+            args.update(switches)
+            orders.make_func(g.node, fn)(**args)
+            n_cases += 1
+            decoded = [c_[0] for h in hmms for c_ in h.calls]
+            left_out = [tname for tname in ('T1', 'T2') if not any(d_ is trs[tname] for d_ in decoded)]
+            if left_out:
+                tn = left_out[0]
+                bad = ('sentinel', 'every track given is decoded: each of its observations ends up matched or flagged unmatched',
+                       {'track never handed to the decoder': tn, 'neighbourhoods of its observations': [op[0] for op in plan[tn]], 'switches': dict(switches)})
+                break
+            calls = [c_ for h in hmms for c_ in h.calls]
+            for tname in ('T1', 'T2'):
+                mine = [c_ for c_ in calls if c_[0] is trs[tname]]
+                opts = plan[tname]
+                tr = trs[tname]
+                if len(mine) != 1 or mine[0][2] is None:
+                    bad = ('estimate', 'each track is decoded once, by a decoder that was given a state function', {'track': tname, 'decoder runs on it': len(mine)})
+                    break
+                trk, mode, lists = mine[0]
+                if mode != mode_want:
+                    bad = ('estimate', 'the decoder runs with observations taken as 2D positions', {'mode passed': mode, 'MODE_OBS_AS_2D_POSITIONS': mode_want})
+                    break
+                for k, op in enumerate(opts):
+                    q = where[(tname, k)]
+                    must, may = [], []
+                    for e in (op[1] or ()):
+                        d_, px, py, ds, dt = oracle(e, q)
+                        cand = (px, py, e, ds, dt)
+                        if d_ < radius - 1e-6:
+                            must.append(cand)
+                        elif d_ <= radius + 1e-6:
+                            may.append(cand)
+                    got = lists[k]
+                    case = {'track': tname, 'observation': k, 'position': list(q), 'neighbourhood': op[0], 'search radius': radius}
+                    if switches:
+                        case['switches'] = dict(switches)
+
+                    def plain(c_):
+                        if not (isinstance(c_, (tuple, list)) and len(c_) == 4 and isinstance(c_[0], orders.Obj) and 'E' in c_[0].fields):
+                            return repr(c_)[:120]
+                        return (c_[0].fields['E'], c_[0].fields['N'], c_[1], c_[2], c_[3])
+
+                    def same(a_, b_):
+                        return isinstance(a_, tuple) and a_[2] == b_[2] and type(a_[2]) is type(b_[2]) and \
+                            all(isinstance(x_, (int, float)) and not isinstance(x_, bool) and abs(x_ - y_) <= 1e-6 for x_, y_ in zip((a_[0], a_[1], a_[3], a_[4]), (b_[0], b_[1], b_[3], b_[4])))
+                    gp_ = [plain(c_) for c_ in got]
+                    sentinel = (q[0], q[1], -1, -1, -1)
+                    case['candidates the decoder sees (easting, northing, edge, to source, to target)'] = [list(c_) if isinstance(c_, tuple) else c_ for c_ in gp_]
+                    extra = [c_ for c_ in gp_ if not same(c_, sentinel) and not any(same(c_, w_) for w_ in must + may)]
+                    missing = [w_ for w_ in must if not any(same(c_, w_) for c_ in gp_)]
+                    kept = [w_ for w_ in must + may if any(same(c_, w_) for c_ in gp_)]
+                    has_sentinel = any(same(c_, sentinel) for c_ in gp_)
+                    if extra or missing or len(gp_) != len(kept) + (1 if has_sentinel else 0):
+                        bad = ('radius', 'the candidates of observation k are exactly: for every neighbouring edge whose projection distance is below the search radius, '
+                               '(foot of the perpendicular of position k on that edge, the edge, its abscissa from the source node, from the target node)',
+                               dict(case, **{'expected': [list(w_) for w_ in must], 'kept although not such a candidate': [list(c_) if isinstance(c_, tuple) else c_ for c_ in extra],
+                                             'missing': [list(w_) for w_ in missing]}))
+                        break
+                    if not kept and not (len(gp_) == 1 and has_sentinel):
+                        bad = ('sentinel', 'an observation without candidate receives the unmatched sentinel (its own position, -1, -1, -1) and nothing else', case)
+                        break
+                    if kept and has_sentinel:
+                        bad = ('sentinel', 'a matched observation is not flagged unmatched', case)
+                        break
+                    if not kept and got[0][0] is not tr.call('getObs', k).fields['position'] and got[0][0].fields.get('U') != 3.0:
+                        bad = ('sentinel', 'the unmatched sentinel carries the position of the observation', case)
+                        break
+                if bad is not None:
+                    break
+    except orders.Unsupported as ex:
+        raise shape_error('mapOnNetwork not interpretable: %s' % ex, f.loc())
+    except _Bad as ex:
+        bad = ('provenance', ex.desc, ex.wit)
+    except orders.PROGRAM_ERRORS as ex:
+        bad = ('fails', 'mapOnNetwork does not fail while building the candidates', {'exception': '%s: %s' % (type(ex).__name__, str(ex)[:200])})
+    if bad is not None:
+        ctx.violation('C10.E', f, bad[1], bad[2], node=f.node, key=bad[0])
+    else:
+        ctx.ok('C10.E', f, 'on concrete geometry the decoder sees for observation k exactly the candidates (foot on the edge, edge, abscissa from source, from target) of the '
+                           'neighbouring edges nearer than the radius, or the unmatched sentinel: %d interpreted matchings of two tracks' % n_cases, node=f.node)
+    ctx.extra['C10.E cases'] = n_cases
+
+
 def rule_N(ctx):
     """C10.N distances to the two end nodes"""
     f = _private(ctx, MAP, '__distToNode')
@@ -514,18 +792,34 @@ class _Proxy:
 
 
 def rule_P(ctx):
-    """C10.P the distance compared with the radius is the distance to the point returned (proj_segment, every return)"""
+    """C10.P the matched point lies on the edge geometry, at the distance compared with the radius: proj_segment interpreted on its case
+    domain (projected-coordinate magnitudes included, a foot a few centimetres beyond an end)"""
     from . import c20
-    from ..report import Proxy
-    c20.rule_D(_Proxy(ctx))
-    # ... and the distance returned for a polyline is the one of the projection whose point is returned
-    c20.rule_P(Proxy(ctx, {'C20.P': 'C10.P'}))
-    # ... and the wrapper used by map-matching projects on the current geometry of the edge
-    c20.proj_on_track_rule(ctx, 'C10.P')
-    # ... and the point returned lies on the closed segment (also at projected-coordinate magnitudes, for a foot a few centimetres beyond an end)
     f_, bad_, n_ = c20._proj_segment_cases(ctx)
     ctx.check(not bad_, 'C10.P', f_, 'proj_segment answers the nearest point of the closed segment: the matched point lies on the edge geometry (%d interpreted cases)' % n_,
               witness={'counter-examples': bad_}, node=f_.node, key='on-segment')
+
+
+def rule_M(ctx):
+    """C10.M the projection chain map-matching uses (__projOnTrack -> proj_polyligne -> proj_segment) interpreted on polyline / query
+    configurations: the point returned is the nearest of the polyline, its distance the one compared with the radius, its segment the
+    one the end-node distances are measured from"""
+    from . import c20
+    c20.rule_M(ctx, rid='C10.M')
+    # ... and the distance returned for a polyline is the one of the projection whose point is returned (proj_polyligne interpreted
+    # over every weak ordering of the distances of its segments)
+    from ..report import Proxy
+    c20.rule_P(Proxy(ctx, {'C20.P': 'C10.M'}))
+
+
+def rule_Y(ctx):
+    """C10.Y the same clauses read symbolically on every return path of proj_segment / proj_polyligne and on the wiring of __projOnTrack
+    (all-inputs identities when the code is in the shape the reader follows: weighed against C10.P and C10.M)"""
+    from . import c20
+    from ..report import Proxy
+    c20.rule_D(Proxy(ctx, {'C20.D': 'C10.Y'}))
+    # ... and the wrapper used by map-matching projects on the current geometry of the edge
+    c20.proj_on_track_rule(ctx, 'C10.Y')
 
 
 def rule_V(ctx):
@@ -664,7 +958,10 @@ def rule_A(ctx):
 RULES = [
     ('C10.V', rule_V, 'quick'),
     ('C10.P', rule_P, 'quick'),
-    ('C10.D', rule_D, 'quick'),
+    ('C10.M', rule_M, 'quick'),
+    ('C10.Y', weighed('C10.Y', rule_Y, ('C10.P', 'C10.M')), 'quick'),
+    ('C10.E', rule_E, 'quick'),
+    ('C10.D', weighed('C10.D', rule_D, ('C10.E',)), 'quick'),
     ('C10.I', rule_I, 'quick'),
     ('C10.A', rule_A, 'quick'),
     ('C10.N', weighed('C10.N', rule_N, ('C10.I',)), 'quick'),
